@@ -21,6 +21,7 @@ import io
 import itertools
 import os
 
+from mc.engine import implstate
 from mc.engine.harness import Partial, Report, merge_all
 from mc.engine.pool import run_shards, split
 from mc.gen import scenario as S
@@ -363,7 +364,7 @@ def run_select_roots(args):
     proot = private_root(base)
     try:
         for h in hists:
-            pt.TableGroupCacheManager._TABLE_GROUP_CACHE = pt.TableGroupCache()
+            implstate.reset_table_cache()
             p.n['nodes'] += 1
             for step, k in enumerate(h):
                 rname, mver, lver = ROOT_REQUESTS[k]
